@@ -773,7 +773,11 @@ func (n *Node) StoreDigest() string {
 		}
 		h.Write([]byte("|"))
 	}
-	fmt.Fprintf(h, "best=%s root=%x orph=%v dpos=%s", n.Best().ID(), n.CS.SDB().GetRoot(), n.CS.VerifOrphans(), n.DPoS.VerifStatusDigest())
+	// of the consensus status only the irreversible block is compared: the in-memory
+	// confirm list / proposed-LIB map is rebuilt from the blocks after a refused block
+	// (Status.Update in rollback mode) and need not be representation-identical
+	lh, ln := n.DPoS.VerifLIB()
+	fmt.Fprintf(h, "best=%s root=%x orph=%v lib=%d/%s", n.Best().ID(), n.CS.SDB().GetRoot(), n.CS.VerifOrphans(), ln, lh)
 	return fmt.Sprintf("%x", h.Sum(nil)[:16])
 }
 
